@@ -207,11 +207,44 @@ PROPERTIES["C17"]["conformance"] = ["os"]
 for _p in ("C10", "C20", "C07"):
     PROPERTIES[_p]["conformance"] = ["pdu"]
 
-NOT_APPLICABLE = {
-    "C01": "not yet claimed by this revision: the local obligations exist (tagged C01 on the checksum guard, EOF fields, progress and "
-           "relaying contracts) but the composition lemma over the channel model is not built",
-    "C02": "whole-run completion of two composed state machines is not a per-function contract; the step contracts it would chain are "
-           "checked under C04/C05/C07/C10/C13 (clauses tagged C02), the chaining lemmas are not built",
-    "C03": "bounded-fault recovery of the composed system is a liveness property over schedules that contracts cannot express; its "
-           "necessary local conditions are checked under C04, C06, C08, C18 (clauses tagged C03)",
-}
+PROPERTIES["C01"] = P(
+    "other",
+    "The local obligations that C01 factors into are proved per function for all inputs: (a) _checksum_verify returns true iff the "
+    "checksum is trivial (null / metadata only) or the filestore checksum of the destination file over `progress` equals the EOF "
+    "checksum, and sets DATA_COMPLETE/NO_ERROR exactly then; (b) frame: no other destination function turns the delivery code into "
+    "DATA_COMPLETE unless that guard holds on its post-state; (c) a File Data PDU advances `progress` to at least its end, a rejected "
+    "write does not; the EOF fields are stored as received; the checksum type comes from the Metadata PDU; (d) the indication and the "
+    "Finished PDU carry the live finished-params object; (e) the sender's EOF carries size = progress and the filestore checksum of "
+    "that prefix, only after all data was sent; (f) the sender relays exactly the received finished params; for the null/modular "
+    "types in acknowledged mode the lost-range bookkeeping is exact (C06/C18 clauses tagged C01).",
+    "Level 'other': the composition 'equal checksum over the whole file => identical or a genuine collision' under the channel model "
+    "(EOF and Metadata fields arrive intact or not at all, bit flips hit File Data payloads only) is a paper argument in DESIGN.md "
+    "section 7, not a discharged obligation; the abstract VirtualFilestore contract is assumed. " + ENV,
+    "Dest: _checksum_verify, every DestHandler function (frame clause), _handle_fd_pdu, _handle_eof_pdu, "
+    "_handle_eof_without_previous_metadata, _handle_metadata_packet, _fsm_advancement_after_packets_were_sent, "
+    "_deferred_lost_segment_handling, _lost_segment_handling. Source: _handle_wait_for_finish, _notice_of_completion, EOF contracts.",
+    [STUBS, ENV, "channel model of C01 (paper)"], [STUBS])
+
+PROPERTIES["C02"] = P(
+    "other",
+    "The step contracts that a fault-free run chains are proved per function: sender IDLE->metadata->file data (one tile per call)->"
+    "EOF->(ack wait | finished wait | completion)->idle with exactly one finished indication; receiver first packet->reception (file "
+    "created/truncated at the resolved path)->in-order File Data (no NAK, one write)->EOF with matching checksum->completion path per "
+    "mode->Finished PDU->idle; no fault callback and no exception on these paths (clauses tagged C02).",
+    "Level 'other': the chaining of the step contracts over the two handlers and a perfect link into 'every run completes' is an "
+    "argument over these contracts (a finite chain of enabled steps), not a discharged obligation; pacing independence rests on the "
+    "no-op contracts of the waiting steps. " + ENV,
+    "All step functions of both handlers (clauses tagged C02).", [STUBS, ENV, "perfect link (paper)"], [STUBS])
+
+PROPERTIES["C03"] = P(
+    "other",
+    "Necessary local conditions of recovery are proved: every retry timer re-arms and re-sends until its limit (C04 clauses); a "
+    "started deferred procedure stays in a step that services it (step invariant; late Metadata continues in WAITING_FOR_MISSING_DATA); "
+    "NAK rounds request the tracked ranges and received retransmissions shrink them exactly (C06/C18 clauses); the EOF before Metadata "
+    "stores size and checksum and is acknowledged; duplicates are absorbed.",
+    "Level 'other': 'with at most K faults and limits > K the file is eventually delivered' is a liveness statement about schedules of "
+    "two composed state machines; contracts decide the mechanisms it relies on, the pigeonhole argument over rounds is on paper. A PASS "
+    "means every such mechanism meets its contract, not that C03 is proved. " + ENV,
+    "Clauses tagged C03 in both handlers.", [STUBS, ENV, "fault model and fairness (paper)"], [STUBS])
+
+NOT_APPLICABLE = {}
